@@ -1,36 +1,147 @@
 package main
 
+// Generator for C09: results do not depend on what was inspected before.
+//
+// Every input is inspected once in a FRESH process (the baseline); then the same inputs are
+// inspected in long ordered sequences inside ONE process - in this process through
+// file.Inspect (ops history/after), and in one process of the real command-line tool, given
+// the files as arguments (op cli-args) or as a directory tree (op scan, -r) - and every
+// position is compared with its baseline.  The sequences are built to contain what a cache,
+// a memo, a budget or a "last seen" shortcut would confuse (c09_inputs.go).  Helper functions
+// that take a buffer are driven through ONE reused buffer (op helper).
+
 import (
 	"bytes"
 	"context"
 	"crypto/cipher"
 	"crypto/des"
 	"crypto/md5"
+	"crypto/sha256"
+	"encoding/hex"
 	"fmt"
 	"os"
 	"os/exec"
 	"path/filepath"
+	"sort"
 	"strings"
+	"sync"
 	"syscall"
 	"time"
+
+	"github.com/edutko/decipher/internal/asn1struct"
+	"github.com/edutko/decipher/internal/file"
+	"github.com/edutko/decipher/internal/util"
 )
 
 func init() { gens["C09"] = genC09 }
 
+// c09Clip keeps observations small: a long one is replaced by its description and the
+// SHA-256 of its full rendering (the comparison loses nothing but readability).
+func c09Clip(o Sx, desc string) Sx {
+	s := o.String()
+	if len(s) <= 360 {
+		return o
+	}
+	h := sha256.Sum256([]byte(s))
+	return SL{I(0), SL{S(desc), SL{SL{S("sha256 of the full description"), S(hex.EncodeToString(h[:]))}}, SL{}}}
+}
+
+func c09Obs(path string) (Sx, string) {
+	o, info := inspectObs(path)
+	return c09Clip(o, info.Description), info.Description
+}
+
+func c09ClipText(b []byte) []byte {
+	if len(b) <= 300 {
+		return b
+	}
+	h := sha256.Sum256(b)
+	first := b
+	if i := bytes.IndexByte(b, '\n'); i >= 0 {
+		first = b[:i]
+	}
+	if len(first) > 200 {
+		first = first[:200]
+	}
+	return []byte(fmt.Sprintf("%s\n  [%d bytes, sha256 %x]\n", first, len(b), h))
+}
+
 // freshObs inspects one file in a fresh process (verifharness inspect1) and returns the
-// observation text.
-func freshObs(path string) string {
+// description (the input's "format" for the coverage of ordered pairs), the number of rows
+// of the format table that claim the input, and the observation.  The process that runs the
+// histories calls no code of the repository before the first position of the first history.
+func freshObs(path string) (label string, rows int, obs string) {
 	self, _ := os.Executable()
 	out, err := exec.Command(self, "inspect1", path).Output()
 	if err != nil {
-		return "(2)"
+		return "(crashed)", 0, "(2)"
 	}
-	return strings.TrimSpace(string(out))
+	parts := strings.SplitN(strings.TrimRight(string(out), "\r\n"), "\t", 3)
+	if len(parts) != 3 {
+		return "(crashed)", 0, "(2)"
+	}
+	d, _ := hex.DecodeString(parts[0])
+	fmt.Sscan(parts[1], &rows)
+	return string(d), rows, parts[2]
 }
 
+// helpers driven through one reused buffer: name -> observation of one call
+var c09Helpers = map[string]func(b []byte) Sx{
+	"DecodeAnyBase64": func(b []byte) Sx {
+		return guard(func() Sx {
+			out, err := util.DecodeAnyBase64(b)
+			if err != nil {
+				return ObsErr()
+			}
+			return ObsOk(SB(append([]byte{}, out...)))
+		})
+	},
+	"WhichBase64": func(b []byte) Sx {
+		return guard(func() Sx {
+			if util.WhichBase64(b) == nil {
+				return ObsErr()
+			}
+			return ObsOk(SL{})
+		})
+	},
+	"ParseRaw": func(b []byte) Sx {
+		return guard(func() Sx {
+			items, err := asn1struct.ParseRaw(b)
+			if err != nil {
+				return ObsErr()
+			}
+			h := sha256.Sum256([]byte(fmt.Sprintf("%v", items)))
+			return ObsOk(SL{I(len(items)), SB(h[:8])})
+		})
+	},
+	"IsJWT": func(b []byte) Sx { return guard(func() Sx { return ObsOk(Bool(file.IsJWT("", b, int64(len(b))))) }) },
+	"IsBase64ASN1": func(b []byte) Sx {
+		return guard(func() Sx { return ObsOk(Bool(file.IsBase64ASN1("", b, int64(len(b))))) })
+	},
+	"IsASN1": func(b []byte) Sx { return guard(func() Sx { return ObsOk(Bool(file.IsASN1("", b, int64(len(b))))) }) },
+	"IsUUID": func(b []byte) Sx { return guard(func() Sx { return ObsOk(Bool(file.IsUUID("", b, int64(len(b))))) }) },
+}
+
+// inspect1Main: `inspect1 <path>` prints hex(description) TAB claiming-rows TAB observation;
+// `inspect1 --helper <name> <hex>` prints the observation of one helper call.
 func inspect1Main() {
-	o, _ := inspectObs(os.Args[2])
-	fmt.Println(o.String())
+	if len(os.Args) >= 5 && os.Args[2] == "--helper" {
+		b, _ := hex.DecodeString(os.Args[4])
+		fmt.Println(c09Helpers[os.Args[3]](b).String())
+		return
+	}
+	o, d := c09Obs(os.Args[2])
+	rows := 0
+	func() {
+		defer func() { recover() }()
+		data, _ := os.ReadFile(os.Args[2])
+		for _, pr := range file.VerifRowPredicates(os.Args[2], data, int64(len(data))) {
+			if pr[0] || pr[1] || pr[2] {
+				rows++
+			}
+		}
+	}()
+	fmt.Printf("%s\t%d\t%s\n", hex.EncodeToString([]byte(d)), rows, o.String())
 }
 
 type c09_rawSx string
@@ -68,59 +179,319 @@ func ssh1Encrypted(check [2]byte) []byte {
 	return append(out, priv...)
 }
 
+type c09Item struct {
+	tag, name, path string
+	fresh           string // observation in a fresh process
+	label           string // description in a fresh process: the input's format
+	rows            int    // table rows that claim it
+	mutating        bool   // explicit-parameter EC key: the path that writes into the curve table's spare capacity
+}
+
+type c09Gen struct {
+	c    *Ctx
+	dir  string
+	pool []c09Item
+	cli  map[string][]byte // output of a separate run of the CLI on that file alone
+	// digests: emit 12 octets of SHA-256 instead of each observation (the n^2 positions of "every
+	// pool element after every other" in the thorough tier)
+	digests bool
+}
+
+func c09Digest(s string) Sx {
+	h := sha256.Sum256([]byte(s))
+	return SL{SB(h[:12])}
+}
+
+func (g *c09Gen) add(tag, name string, data []byte) int {
+	d := filepath.Join(g.dir, "p", fmt.Sprintf("%04d", len(g.pool)))
+	os.MkdirAll(d, 0o755)
+	p := filepath.Join(d, name)
+	os.WriteFile(p, data, 0o644)
+	g.pool = append(g.pool, c09Item{tag: tag, name: name, path: p})
+	return len(g.pool) - 1
+}
+
+func (g *c09Gen) addFam(f c09Fam) [][]int {
+	idx := make([]int, len(f.items))
+	for i, it := range f.items {
+		idx[i] = g.add(it.tag, it.name, it.data)
+	}
+	var seqs [][]int
+	for _, s := range f.seqs {
+		q := make([]int, len(s))
+		for i, k := range s {
+			q[i] = idx[k]
+		}
+		seqs = append(seqs, q)
+	}
+	return seqs
+}
+
+// baselines: every pool element in its own fresh process (8 at a time)
+func (g *c09Gen) baselines() {
+	var wg sync.WaitGroup
+	sem := make(chan struct{}, 8)
+	for i := range g.pool {
+		wg.Add(1)
+		sem <- struct{}{}
+		go func(i int) {
+			defer wg.Done()
+			g.pool[i].label, g.pool[i].rows, g.pool[i].fresh = freshObs(g.pool[i].path)
+			<-sem
+		}(i)
+	}
+	wg.Wait()
+}
+
+const c09Chunk = 24
+
+// history inspects the sequence in THIS process, one case per chunk of positions.
+func (g *c09Gen) history(kind string, seq []int) {
+	for s := 0; s < len(seq); s += c09Chunk {
+		e := s + c09Chunk
+		if e > len(seq) {
+			e = len(seq)
+		}
+		input, obs := SL{}, SL{}
+		for _, i := range seq[s:e] {
+			it := g.pool[i]
+			o, _ := c09Obs(it.path)
+			if g.digests {
+				input = append(input, SL{S(it.tag), c09Digest(it.fresh)})
+				obs = append(obs, c09Digest(o.String()))
+				continue
+			}
+			input = append(input, SL{S(it.tag), c09_rawSx(it.fresh)})
+			obs = append(obs, o)
+		}
+		g.c.Emit(kind, input, obs)
+	}
+}
+
+func (g *c09Gen) rel(p string) string {
+	r, err := filepath.Rel(g.dir, p)
+	if err != nil {
+		return p
+	}
+	return r
+}
+
+func (g *c09Gen) cliAlone(relPath string) []byte {
+	if o, ok := g.cli[relPath]; ok {
+		return o
+	}
+	o, code := c09RunCLI(g.c, g.dir, relPath)
+	if code != 0 {
+		o = append(o, []byte(fmt.Sprintf("<exit %d>", code))...)
+	}
+	g.cli[relPath] = o
+	return o
+}
+
+// c09Split cuts the output of one process into the pieces the separate runs predict.
+func c09Split(got []byte, want [][]byte) [][]byte {
+	out := make([][]byte, len(want))
+	for i, w := range want {
+		n := len(w)
+		if n > len(got) || i == len(want)-1 {
+			n = len(got)
+		}
+		out[i] = got[:n]
+		got = got[n:]
+	}
+	return out
+}
+
+func (g *c09Gen) emitCLI(kind string, tags []string, want, got [][]byte, code int) {
+	for s := 0; s < len(want); s += c09Chunk {
+		e := s + c09Chunk
+		if e > len(want) {
+			e = len(want)
+		}
+		input, obs := SL{}, SL{}
+		for i := s; i < e; i++ {
+			if g.digests {
+				input = append(input, SL{S(tags[i]), c09Digest(string(want[i]))})
+				obs = append(obs, c09Digest(string(got[i])))
+				continue
+			}
+			input = append(input, SL{S(tags[i]), SL{SB(c09ClipText(want[i]))}})
+			obs = append(obs, SL{SB(c09ClipText(got[i]))})
+		}
+		if e == len(want) {
+			input = append(input, SL{S("exit-status"), SL{I(0)}})
+			obs = append(obs, SL{I(code)})
+		}
+		g.c.Emit(kind, input, obs)
+	}
+}
+
+// cliArgs: ONE process of the real tool is given the files of the sequence as arguments.
+func (g *c09Gen) cliArgs(kind string, seq []int) {
+	const maxArgs = 1500
+	for s := 0; s < len(seq); s += maxArgs {
+		e := s + maxArgs
+		if e > len(seq) {
+			e = len(seq)
+		}
+		var args, tags []string
+		var want [][]byte
+		for _, i := range seq[s:e] {
+			r := g.rel(g.pool[i].path)
+			args = append(args, r)
+			tags = append(tags, g.pool[i].tag)
+			want = append(want, g.cliAlone(r))
+		}
+		got, code := c09RunCLI(g.c, g.dir, args...)
+		g.emitCLI(kind, tags, want, c09Split(got, want), code)
+	}
+}
+
+// scanTree: the sequence laid out as tree/NNNN/<name> (one copy per position), scanned by ONE
+// process of the real tool with -r; each copy is also described by a separate run.
+func (g *c09Gen) scanTree(kind string, n int, seq []int) {
+	root := fmt.Sprintf("t%03d", n)
+	var tags []string
+	var want [][]byte
+	for k, i := range seq {
+		d := filepath.Join(g.dir, root, fmt.Sprintf("%04d", k))
+		os.MkdirAll(d, 0o755)
+		data, _ := os.ReadFile(g.pool[i].path)
+		os.WriteFile(filepath.Join(d, g.pool[i].name), data, 0o644)
+		tags = append(tags, g.pool[i].tag)
+		want = append(want, g.cliAlone(filepath.Join(root, fmt.Sprintf("%04d", k), g.pool[i].name)))
+	}
+	got, code := c09RunCLI(g.c, g.dir, "-r", root)
+	g.emitCLI(kind, tags, want, c09Split(got, want), code)
+	os.RemoveAll(filepath.Join(g.dir, root))
+}
+
+// c09AllPairs returns a sequence over 0..n-1 in which every ordered pair (a, b), a == b
+// included, occurs as two consecutive elements (a de Bruijn sequence of order 2: the Lyndon
+// words of length 1 and 2 in lexicographic order, closed by its first element).
+func c09AllPairs(n int) []int {
+	var s []int
+	for i := 0; i < n; i++ {
+		s = append(s, i)
+		for j := i + 1; j < n; j++ {
+			s = append(s, i, j)
+		}
+	}
+	if n > 0 {
+		s = append(s, s[0])
+	}
+	return s
+}
+
+func (g *c09Gen) helperHistory(name string, tagged [][2]string) {
+	self, _ := os.Executable()
+	f := c09Helpers[name]
+	max := 0
+	for _, t := range tagged {
+		if len(t[1]) > max {
+			max = len(t[1])
+		}
+	}
+	buf := make([]byte, max) // ONE buffer, refilled for every call
+	input, obs := SL{}, SL{}
+	var in []byte
+	for _, t := range tagged {
+		out, err := exec.Command(self, "inspect1", "--helper", name, hex.EncodeToString([]byte(t[1]))).Output()
+		fresh := "(2)"
+		if err == nil {
+			fresh = strings.TrimSpace(string(out))
+		}
+		// tag "same-buffer-again": the helper is called once more on the buffer as the previous
+		// call left it (a helper that edits its argument in place answers differently)
+		if t[0] != "same-buffer-again" || in == nil {
+			in = buf[:copy(buf, t[1])]
+		}
+		input = append(input, SL{S(t[0]), c09_rawSx(fresh)})
+		obs = append(obs, f(in))
+	}
+	g.c.Emit("helper:"+name, input, obs)
+}
+
 func genC09(c *Ctx) {
-	dir := filepath.Join(c.Tmp, "c09")
-	os.MkdirAll(dir, 0o755)
-	// pool: labelled corpus (fixtures), generated instances, malformed mutants
-	type item struct {
-		tag, path, fresh string
+	g := &c09Gen{c: c, dir: filepath.Join(c.Tmp, "c09"), cli: map[string][]byte{}}
+	os.MkdirAll(g.dir, 0o755)
+	t0 := time.Now()
+	lap := func(what string) {
+		fmt.Fprintf(os.Stderr, "c09: %s: %.1fs\n", what, time.Since(t0).Seconds())
+		t0 = time.Now()
 	}
-	var pool []item
-	addItem := func(tag, name string, data []byte) {
-		p := filepath.Join(dir, fmt.Sprintf("%03d-%s", len(pool), name))
-		os.WriteFile(p, data, 0o644)
-		pool = append(pool, item{tag: tag, path: p})
-	}
-	explicit := 0
+	// ---------- the pool ----------
+	// labelled corpus: explicit-parameter EC keys first (the one path that writes package-level data)
+	var explicit []int
 	for _, s := range allFixtures() {
 		if strings.Contains(s.name, "explicit") {
-			// the only known mutating path: explicit EC parameters (append into the curve table's spare capacity)
-			addItem("ec-explicit", s.name, s.data)
-			explicit++
+			explicit = append(explicit, g.add("ec-explicit", s.name, s.data))
 		}
+	}
+	for _, i := range explicit {
+		g.pool[i].mutating = true
 	}
 	for _, s := range allFixtures() {
 		if !strings.Contains(s.name, "explicit") && (c.Thorough() || c.R.Intn(3) == 0) {
-			addItem("fixture:"+s.tag, s.name, s.data)
+			g.add("fixture:"+s.tag, s.name, s.data)
 		}
 	}
-	// package-level state candidates: ciphers reused across keys (SSH1 3DES under the empty passphrase)
-	addItem("ssh1-3des-empty", "e1", ssh1Encrypted([2]byte{0x12, 0x34}))
-	addItem("ssh1-3des-empty", "e2", ssh1Encrypted([2]byte{0xab, 0xcd}))
-	addItem("ssh1-3des-other", "e3", fixture("ssh1/rsa-encrypted"))
-	stateful := len(pool)
-	addItem("pgp", "k.asc", armoredPGPKey(c.R, true))
-	addItem("jwt", "t.jwt", jwtWith(map[string]any{"sub": "x", "exp": "1700000000"}, map[string]any{"alg": "HS256"}))
-	addItem("jwt", "a.jwt", jwtWith(map[string]any{"sub": "a", "iss": "issuer-a", "aud": "aud-a", "jti": "a-0001", "nbf": 1700000000, "iat": 1700000000},
+	// ciphers reused across keys (SSH1 3DES under the empty passphrase)
+	ssh1 := []int{
+		g.add("ssh1-3des-empty", "e1", ssh1Encrypted([2]byte{0x12, 0x34})),
+		g.add("ssh1-3des-empty", "e2", ssh1Encrypted([2]byte{0xab, 0xcd})),
+		g.add("ssh1-3des-other", "e3", fixture("ssh1/rsa-encrypted")),
+	}
+	g.add("pgp", "k.asc", armoredPGPKey(c.R, true))
+	g.add("jwt", "t.jwt", jwtWith(map[string]any{"sub": "x", "exp": "1700000000"}, map[string]any{"alg": "HS256"}))
+	g.add("jwt", "a.jwt", jwtWith(map[string]any{"sub": "a", "iss": "issuer-a", "aud": "aud-a", "jti": "a-0001", "nbf": 1700000000, "iat": 1700000000},
 		map[string]any{"alg": "RS256", "kid": "signing-key-2023", "typ": "JWT", "x5t": "thumb"}))
-	addItem("jwt", "b.jwt", jwtWith(map[string]any{"sub": "b"}, map[string]any{"alg": "none"}))
-	addItem("jwt", "null.jwt", []byte("bnVsbA.bnVsbA."))
-	addItem("uuid", "u.txt", []byte("1EC9414C-232A-6B00-B3C8-9E6BDECED846\n"))
-	addItem("junk", "junk.bin", []byte("not a key at all\n"))
-	addItem("empty", "empty", nil)
-	// malformed mutants of the explicit-parameter keys and of a few others
-	base := len(pool)
+	g.add("jwt", "b.jwt", jwtWith(map[string]any{"sub": "b"}, map[string]any{"alg": "none"}))
+	g.add("jwt", "null.jwt", []byte("bnVsbA.bnVsbA."))
+	g.add("uuid", "u.txt", []byte("1EC9414C-232A-6B00-B3C8-9E6BDECED846\n"))
+	g.add("junk", "junk.bin", []byte("not a key at all\n"))
+	g.add("empty", "empty", nil)
+	// ordered families: one format twice with one differing detail; budgets
+	var directed [][]int
+	var directedNames []string
+	fam := func(f c09Fam) {
+		for _, s := range g.addFam(f) {
+			directed = append(directed, s)
+			directedNames = append(directedNames, f.name)
+		}
+	}
+	per := 1
+	nkeys := 2
+	if c.Thorough() {
+		per, nkeys = 3, 4
+	}
+	for v := 0; v < nkeys; v++ {
+		fam(c09PGPFamily(c, v, per))
+	}
+	fam(c09CertFamily(c))
+	fam(c09SSHFamily(c))
+	fam(c09B64Family(c))
+	fam(c09BudgetDER(c))
+	fam(c09BudgetPGP(c))
+	fam(c09BudgetOther(c))
+	// inputs that several table rows claim
+	var special []int
+	for _, in := range c09Ambiguous(c) {
+		special = append(special, g.add(in.tag, in.name, in.data))
+	}
+	// malformed mutants of the explicit-parameter keys and of everything else
+	base := len(g.pool)
 	nm := 30
 	if c.Thorough() {
-		nm = 300
+		nm = 150
 	}
 	for k := 0; k < nm; k++ {
-		src := pool[c.R.Intn(base)]
+		src := g.pool[c.R.Intn(base)]
 		if k%2 == 0 {
-			src = pool[c.R.Intn(explicit)]
+			src = g.pool[explicit[c.R.Intn(len(explicit))]]
 		}
 		d, _ := os.ReadFile(src.path)
-		if len(d) == 0 {
+		if len(d) == 0 || len(d) > 1<<16 {
 			continue
 		}
 		d = append([]byte{}, d...)
@@ -132,50 +503,268 @@ func genC09(c *Ctx) {
 		default:
 			d[c.R.Intn(len(d))] = byte(c.R.U64())
 		}
-		addItem("mutant-of-"+src.tag, "m.bin", d)
+		g.add("mutant-of-"+strings.SplitN(src.tag, ":", 2)[0], "m.bin", d)
 	}
-	for i := range pool {
-		pool[i].fresh = freshObs(pool[i].path)
+	lap("pool built")
+	g.baselines()
+	lap(fmt.Sprintf("baselines of %d pool elements in fresh processes", len(g.pool)))
+
+	// ---------- (1) directed families: this process, the tool with arguments, the tool with -r ----------
+	for k, s := range directed {
+		g.history("history:"+directedNames[k], s)
 	}
-	// histories
-	nh, hl := 12, 50
+	for k, s := range directed {
+		g.cliArgs("cli-args:"+directedNames[k], s)
+		heavy := false
+		for _, i := range s {
+			heavy = heavy || strings.HasPrefix(g.pool[i].tag, "der-many-elements")
+		}
+		if (len(s) <= 40 && !heavy) || c.Thorough() {
+			g.scanTree("scan:"+directedNames[k], k, s)
+		}
+	}
+
+	lap("directed families (this process, CLI arguments, CLI -r)")
+	// ---------- (2) inputs that several rows claim, after one input of every format ----------
+	byLabel := map[string][]int{}
+	for i, it := range g.pool {
+		byLabel[it.label] = append(byLabel[it.label], i)
+	}
+	var labels []string
+	for l := range byLabel {
+		labels = append(labels, l)
+	}
+	sort.Strings(labels)
+	// seeded order of the formats
+	for i := len(labels) - 1; i > 0; i-- {
+		j := c.R.Intn(i + 1)
+		labels[i], labels[j] = labels[j], labels[i]
+	}
+	pick := func(l string) int { return byLabel[l][c.R.Intn(len(byLabel[l]))] }
+	var ambiguous []int
+	ambiguous = append(ambiguous, special...)
+	var others []int
+	for i, it := range g.pool {
+		isSpecial := false
+		for _, s := range special {
+			isSpecial = isSpecial || s == i
+		}
+		if it.rows >= 2 && !isSpecial {
+			others = append(others, i)
+		}
+	}
+	na := 6
+	if c.Thorough() {
+		na = len(others)
+	} else {
+		// quick: every generated one-TLV text, a seeded third of the name/content combinations
+		var keep []int
+		for _, a := range ambiguous {
+			if strings.Contains(g.pool[a].tag, "one-tlv") || c.R.Intn(3) == 0 {
+				keep = append(keep, a)
+			}
+		}
+		ambiguous = keep
+	}
+	for k := 0; k < na && len(others) > 0; k++ {
+		ambiguous = append(ambiguous, others[c.R.Intn(len(others))])
+	}
+	var amb []int
+	for _, a := range ambiguous {
+		if g.pool[a].rows < 2 {
+			continue // only one row claims it after all (e.g. a near miss): covered by the pairs below
+		}
+		for _, l := range labels {
+			amb = append(amb, pick(l), a)
+		}
+	}
+	g.history("history:claimed-by-several-rows", amb)
+	g.cliArgs("cli-args:claimed-by-several-rows", amb)
+
+	lap(fmt.Sprintf("%d inputs claimed by several rows after one input of each of %d formats", len(amb)/2/len(labels), len(labels)))
+	// ---------- (3) ordered pairs ----------
+	var pairs []int
+	if c.Thorough() {
+		// every pool element after every other
+		perm := make([]int, len(g.pool))
+		for i := range perm {
+			perm[i] = i
+		}
+		for i := len(perm) - 1; i > 0; i-- {
+			j := c.R.Intn(i + 1)
+			perm[i], perm[j] = perm[j], perm[i]
+		}
+		for _, k := range c09AllPairs(len(perm)) {
+			if !strings.HasPrefix(g.pool[perm[k]].tag, "der-many-elements") { // 10^5 elements: in the budget family only
+				pairs = append(pairs, perm[k])
+			}
+		}
+	} else {
+		// every ordered pair of FORMATS, a seeded element of each
+		for _, k := range c09AllPairs(len(labels)) {
+			i := pick(labels[k])
+			for try := 0; try < 8 && strings.HasPrefix(g.pool[i].tag, "der-many-elements"); try++ {
+				i = pick(labels[k])
+			}
+			pairs = append(pairs, i)
+		}
+	}
+	g.digests = c.Thorough()
+	g.history("history:ordered-pairs", pairs)
+	g.cliArgs("cli-args:ordered-pairs", pairs)
+	g.digests = false
+
+	lap(fmt.Sprintf("ordered pairs: %d positions", len(pairs)))
+	// ---------- (4) long runs of one input ----------
+	run := 1000
+	if c.Thorough() {
+		run = 20000
+	}
+	runOf := []int{explicit[c.R.Intn(len(explicit))], ssh1[0], directed[0][2], special[0]}
+	for _, s := range directed {
+		if strings.HasPrefix(g.pool[s[0]].tag, "der-") {
+			runOf = append(runOf, s[0], s[2])
+			break
+		}
+	}
+	for _, i := range runOf {
+		s := make([]int, run)
+		for k := range s {
+			s[k] = i
+		}
+		g.history("history:run-of-"+strings.SplitN(g.pool[i].tag, ":", 2)[0], s)
+		if len(s) > 1000 {
+			s = s[:1000]
+		}
+		g.cliArgs("cli-args:run-of-"+strings.SplitN(g.pool[i].tag, ":", 2)[0], s)
+	}
+
+	lap(fmt.Sprintf("%d runs of %d", len(runOf), run))
+	// ---------- (5) mixed random histories ----------
+	nh, hl := 12, 48
 	if c.Thorough() {
 		nh, hl = 40, 2000
 	}
 	for h := 0; h < nh; h++ {
-		input := SL{}
-		obs := SL{}
-		for k := 0; k < hl; k++ {
-			var it item
+		var s []int
+		for len(s) < hl {
 			switch {
 			case c.R.Intn(3) == 0:
-				it = pool[c.R.Intn(explicit)] // bias: the mutating path
+				s = append(s, explicit[c.R.Intn(len(explicit))]) // bias: the mutating path
 			case c.R.Intn(5) == 0:
-				it = pool[stateful-3+c.R.Intn(3)] // bias: encrypted SSH1 keys back to back
+				s = append(s, ssh1[c.R.Intn(3)]) // bias: encrypted SSH1 keys back to back
+			case c.R.Intn(4) == 0:
+				// bias: a stretch of a directed family (same format, one differing detail / budgets)
+				d := directed[c.R.Intn(len(directed))]
+				a := c.R.Intn(len(d))
+				b := a + 2 + c.R.Intn(4)
+				if b > len(d) {
+					b = len(d)
+				}
+				for _, i := range d[a:b] {
+					if !strings.HasPrefix(g.pool[i].tag, "der-many-elements") || c.R.Intn(8) == 0 {
+						s = append(s, i)
+					}
+				}
 			default:
-				it = pool[c.R.Intn(len(pool))]
+				i := c.R.Intn(len(g.pool))
+				if !strings.HasPrefix(g.pool[i].tag, "der-many-elements") {
+					s = append(s, i)
+				}
 			}
-			o, _ := inspectObs(it.path)
-			input = append(input, SL{S(it.tag), c09_rawSx(it.fresh)})
-			obs = append(obs, o)
 		}
-		c.Emit("history", input, obs)
+		g.history("history:mixed", s)
 	}
 	// every pool element once more, after all those histories, against its fresh baseline
-	for _, it := range pool {
-		o, _ := inspectObs(it.path)
-		c.Emit("after:"+it.tag, SL{SL{S(it.tag), c09_rawSx(it.fresh)}}, SL{o})
+	for _, it := range g.pool {
+		o, _ := c09Obs(it.path)
+		c.Emit("after:"+strings.SplitN(it.tag, ":", 2)[0], SL{SL{S(it.tag), c09_rawSx(it.fresh)}}, SL{o})
 	}
-	// the second sentence of the property, through the real command-line tool: one process scanning
-	// the whole pool (-r), with entries that cannot be inspected in between, prints for each regular
-	// file exactly what a separate run on that file alone prints
-	c09Scan(c, dir, pool[0].path, func(i int) (string, string, bool) {
-		if i >= len(pool) {
+
+	lap("mixed histories and every element once more")
+	// ---------- (6) helpers through one reused buffer ----------
+	g.helpers()
+	lap("helpers through one reused buffer")
+
+	// ---------- (7) the second sentence of the property, through the real command-line tool: one
+	// process scanning the whole pool (-r), with entries that cannot be inspected in between, prints
+	// for each regular file exactly what a separate run on that file alone prints
+	c09Scan(c, g.dir, "", func(i int) (string, string, bool) {
+		if i >= len(g.pool) {
 			return "", "", false
 		}
-		return pool[i].tag, pool[i].path, true
+		return g.pool[i].tag, g.pool[i].path, true
 	})
-	os.RemoveAll(dir)
+	lap("scan of the whole pool")
+	os.RemoveAll(g.dir)
+}
+
+func (g *c09Gen) helpers() {
+	c := g.c
+	// same-length texts through one buffer: valid, other valid, invalid, padded, mixed alphabets
+	for _, grp := range [][]string{
+		{"QUJDREVG", "R0hJSktM", "!!!!!!!!", "QUJD====", "QUJDRA==", "QUJDR-_+", "-_-_-_8=", "QUJDREVG"},
+		{"YQ", "Yg", "Y!", "Y=", "YQ"},
+		{"QUJD", "QUJDREVG", "QUI", "QUJDRA==", "Q", "QUJDR!", "QUJD"},
+	} {
+		var t [][2]string
+		for _, s := range grp {
+			t = append(t, [2]string{"text", s})
+		}
+		g.helperHistory("DecodeAnyBase64", t)
+		g.helperHistory("WhichBase64", t)
+	}
+	// text with line breaks, each looked at twice without refilling the buffer
+	for _, h := range []string{"DecodeAnyBase64", "WhichBase64", "IsBase64ASN1"} {
+		var t [][2]string
+		for _, s := range []string{"MAMC\nAQU=", "MAMC\r\nAQU=\r\n", "MAMCAQU=\n", "MA\nMC\nAQ\nU="} {
+			t = append(t, [2]string{"text-with-line-breaks", s}, [2]string{"same-buffer-again", s})
+		}
+		g.helperHistory(h, t)
+	}
+	// generated: n texts of one length, valid and invalid interleaved
+	alpha := "ABCDEFGHIJKLMNOPQRSTUVWXYZabcdefghijklmnopqrstuvwxyz0123456789"
+	for k := 0; k < 4; k++ {
+		n := 4 * (1 + c.R.Intn(12))
+		var t [][2]string
+		for j := 0; j < 10; j++ {
+			b := make([]byte, n)
+			for i := range b {
+				b[i] = alpha[c.R.Intn(len(alpha))]
+			}
+			tag := "valid"
+			switch c.R.Intn(4) {
+			case 0:
+				b[c.R.Intn(n)] = "!*. \n"[c.R.Intn(5)]
+				tag = "stray-character"
+			case 1:
+				b[c.R.Intn(n-1)] = '='
+				tag = "misplaced-padding"
+			case 2:
+				b[0], b[n-1] = '-', '+'
+				tag = "mixed-alphabets"
+			}
+			t = append(t, [2]string{tag, string(b)})
+		}
+		g.helperHistory("DecodeAnyBase64", t)
+	}
+	// the generic ASN.1 walk: rejected deep inputs, then small ones
+	der := func(tag string, d []byte) [2]string { return [2]string{tag, string(d)} }
+	bad := []byte{0x02, 0x05, 0x01}
+	g.helperHistory("ParseRaw", [][2]string{
+		der("small", c09SmallDER), der("over-limit", c09Nested(1001, []byte{0x05, 0x00})), der("small", c09SmallDER),
+		der("fails-deep", c09Nested(600, bad)), der("small", c09Nested(3, c09SmallDER)), der("fails-deep", c09Nested(600, bad)),
+		der("small", c09Nested(3, c09SmallDER)), der("at-limit", c09Nested(1000, []byte{0x05, 0x00})), der("small", c09SmallDER)})
+	// the sniffers: texts of one length that different rows claim
+	jwt := c09JWTOfLength(123, `{"`, false)
+	if jwt != nil {
+		other := append([]byte{}, jwt...)
+		other[len(other)-1] = '.'
+		seq := [][2]string{der("jwt-one-tlv", jwt), der("not-a-jwt", other), der("jwt-one-tlv", jwt)}
+		for _, h := range []string{"IsJWT", "IsASN1", "IsBase64ASN1", "IsUUID"} {
+			g.helperHistory(h, seq)
+		}
+	}
 }
 
 func c09RunCLI(c *Ctx, cwd string, args ...string) ([]byte, int) {
@@ -212,13 +801,15 @@ func c09Scan(c *Ctx, dir, _ string, item func(int) (string, string, bool)) {
 		if err != nil {
 			continue
 		}
-		rel := filepath.Base(src)
+		// one directory per file: names such as authorized_keys matter and repeat
+		rel := filepath.Join(fmt.Sprintf("%03d", i), filepath.Base(src))
 		switch i % 7 {
 		case 3:
 			rel = filepath.Join("m-sub", rel)
 		case 5:
 			rel = filepath.Join("m-sub", "deeper", rel)
 		}
+		os.MkdirAll(filepath.Dir(filepath.Join(root, rel)), 0o755)
 		os.WriteFile(filepath.Join(root, rel), d, 0o644)
 		ents = append(ents, ent{tag, rel})
 	}
@@ -258,7 +849,7 @@ func c09Scan(c *Ctx, dir, _ string, item func(int) (string, string, bool)) {
 			o = append(o, []byte(fmt.Sprintf("<exit %d>", code))...)
 		}
 		want = append(want, o)
-		input = append(input, SL{S(x.tag), SL{SB(o)}})
+		input = append(input, SL{S(x.tag), SL{SB(c09ClipText(o))}})
 	}
 	input = append(input, SL{S("exit-status"), SL{I(0)}})
 	got, code := c09RunCLI(c, dir, "-r", "scan")
@@ -268,10 +859,25 @@ func c09Scan(c *Ctx, dir, _ string, item func(int) (string, string, bool)) {
 		if n > len(got) || i == len(want)-1 {
 			n = len(got)
 		}
-		obs = append(obs, SL{SB(got[:n])})
+		obs = append(obs, SL{SB(c09ClipText(got[:n]))})
 		got = got[n:]
 	}
 	obs = append(obs, SL{I(code)})
 	c.Emit("scan", input, obs)
 	os.Chmod(filepath.Join(root, "m-sub", "unreadable"), 0o755)
+}
+
+// T1: the shared description values that functions return BY VALUE (callers append to the
+// copies' slices): length and capacity of their slices in the running code.
+func init() {
+	dumpers = append(dumpers, func(out map[string]any) {
+		type row struct {
+			Name                                 string
+			AttrLen, AttrCap, ChildLen, ChildCap int
+		}
+		mk := func(n string, i file.Info) row {
+			return row{n, len(i.Attributes), cap(i.Attributes), len(i.Children), cap(i.Children)}
+		}
+		out["c09_shared_values"] = []row{mk("internal/file.UnknownASN1Data", file.UnknownASN1Data), mk("internal/file.UnknownPEMData", file.UnknownPEMData)}
+	})
 }
